@@ -17,18 +17,27 @@ open YashModel YashModel.Redir YashModel.Proto
 def fileName (i : Nat) : String :=
   match i with
   | 0 => "in" | 1 => "out" | 2 => "err" | 3 => "a" | 4 => "b" | 5 => "m" | 6 => "n" | 7 => "d"
-  | 8 => "e" | 9 => "p" | 10 => "s" | _ => "tmp"
+  | 8 => "e" | 9 => "p" | 10 => "s" | 11 => "t" | _ => "tmp"
 
 def pathOf (s : String) : Option Nat :=
   match s with
   | "a" => some 3 | "b" => some 4 | "m" => some 5 | "n" => some 6 | "d" => some 7 | "e" => some 8
+  | "t" => some 11
   | _ => none
+
+def fileOpOf (s : String) : Option FileOp :=
+  match s with
+  | "in" => some .fileIn | "out" => some .fileOut | "clob" => some .fileClobber | "app" => some .fileAppend
+  | "rw" => some .fileInOut | _ => none
 
 def parseRedir (s : String) : Option Redir :=
   match words s with
   | [fd, op, operand] => do
     let fd ← fd.toNat?
     if operand = "E" ∧ op ≠ "here" then pure ⟨fd, .expErr⟩ else
+    if operand = "N" ∧ (fileOpOf op).isSome then pure ⟨fd, .nulPath⟩ else
+    if (operand = "ca" ∨ operand = "cm") ∧ (fileOpOf op).isSome then
+      (fileOpOf op).map fun o => ⟨fd, .fileCs o (if operand = "ca" then 3 else 5)⟩ else
     match op with
     | "in" => do pure ⟨fd, .file .fileIn (← pathOf operand)⟩
     | "out" => do pure ⟨fd, .file .fileOut (← pathOf operand)⟩
@@ -37,7 +46,7 @@ def parseRedir (s : String) : Option Redir :=
     | "rw" => do pure ⟨fd, .file .fileInOut (← pathOf operand)⟩
     | "dupin" | "dupout" =>
       let src := if operand = "-" then some DupSrc.closeIt
-                 else if operand = "z" then some DupSrc.malformed
+                 else if operand = "z" ∨ operand = "big" ∨ operand = "neg" then some DupSrc.malformed
                  else operand.toNat?.map DupSrc.fd
       src.map fun s => ⟨fd, .dup (op = "dupin") s⟩
     | "here" => some ⟨fd, .hereDoc [5, 6, 10]⟩
@@ -49,6 +58,10 @@ def parseKind (s : String) : Option Kind :=
   match s with
   | "special" => some .special | "colon" => some .colon | "regular" => some .regular
   | "func" => some .func | "brace" => some .brace | "notfound" => some .notFound
+  -- the other compound commands use the guard exactly like `{ }` (`FullCompoundCommand::execute`)
+  | "forloop" | "whileloop" | "untilloop" | "ifcmd" | "casecmd" => some .brace
+  | "funcret" => some .funcRet | "assign" => some .assign | "ext" | "extp" => some .external
+  | "execbad" => some .execBadOption
   | "empty" => some .empty | "exec" => some .exec | "paren" => some .paren
   | "cmdexec" => some .commandExec | "dot" => some .dot | "dotx" => some .dotMissing
   | "execnf" => some .execNotFound | "execne" => some .execNoExec | "cmdexecnf" => some .commandExecNotFound
@@ -97,7 +110,7 @@ def showFile (w : World) (i : Nat) : String :=
   if !f.present then "x" else if f.kind == .dir then "dir" else if f.tainted then "T" else hexOf f.content
 
 def showFiles (w : World) : String :=
-  ",".intercalate ([0, 1, 3, 4, 5, 6, 9].map fun i => s!"{fileName i}:{showFile w i}")
+  ",".intercalate ([0, 1, 3, 4, 5, 6, 9, 11].map fun i => s!"{fileName i}:{showFile w i}")
 
 def observeCmd (tr : Trace) : String :=
   let d := match tr.during, tr.wrote, tr.readRes with
